@@ -80,13 +80,15 @@ PROPS.update({
         explanation="Theorems C04_errors (unconditional) and C04 (under well-formed use) (proofs/C04Errors*.v): a failing execution is the last event of the trace and its error is what the call returns; a result without error executed no failing function; a resolution failure never runs the target. C04_unrestricted_refuted shows the hypothesis is needed. Correspondence: ordered (function, error) trace and error identity (pointer-equal error values).",
         assumptions=[]),
     "C09": dict(layer=RES,
-        streams=[S("redeftwin", "run_twin CFull 9", 300, 8000), S("once", "run_prop2 CFull 9", 250, 6000), S("redefine", "run_prop2 CFull 9", 250, 6000)],
+        streams=[S("redeftwin", "run_twin CFull 9", 300, 8000), S("once", "run_prop2 CFull 9", 250, 6000), S("redefine", "run_prop2 CFull 9", 250, 6000),
+                 S("concshare", "check_concshare_all", 30, 500, variant="race")],
         witness=[],
         nontrivial_rule="history with at least one execution",
         explanation="Theorem C09 (proofs/C0911Once*.v): every Redefine of the model returns the world (memo table, execution counter) unchanged and its trace contains no execution of a user function. Correspondence: histories mixing Call and Redefine on shared run-once converters; monitor: no body runs during Redefine; twin run: the same history with the Redefine operations erased gives identical observations for every Call.",
         assumptions=[]),
     "C10": dict(layer=RES,
-        streams=[S("converttwin", "run_twin CFull 0", 300, 8000), S("convert", "run_prop CFull P01", 200, 6000)],
+        streams=[S("converttwin", "run_twin CFull 0", 300, 8000), S("convert", "run_prop CFull P01", 200, 6000),
+                 S("convert", "run_prop CClass P05", 200, 6000)],
         witness=[],
         nontrivial_rule="conversion with at least one converter execution",
         explanation="Theorem C10 (proofs/C10C16Opts*.v): Convert is Call on the synthesised identity function; it returns a value exactly when that call succeeds, the value is the argument the identity received and has the target type. Correspondence: Go Convert vs the model, and a twin Go Call on a hand-written identity function must agree (success, value, error class, executions).",
@@ -177,8 +179,8 @@ PROPS.update({
                  S("redefstrict", "run_prop2 CPanic 8", 200, 4000, variant="nat")],
         witness=[W("TestD7", "D7"), W("TestD8", "D8")],
         nontrivial_rule="history with at least one execution",
-        explanation="Theorems C08 / C08_unbounded (proofs/C08Redefine*.v): Redefine fails with the output-filter error exactly when an output is rejected; when it succeeds every input of the redefined function passes the input filter (bound: fewer than (2^63-1)/20 vertices) and none is keyed like a supplied value. Theorem C08_succeeds (proofs/C08Succeeds*.v): on the domain, for every tape, Redefine returns a function whenever no output is rejected and every target parameter passes the input filter (only other outcome: the error of a failing converter generator). NOT proved, decided by correspondence + monitor only: calling the redefined function with a value per input never fails for lack of an argument and yields the original results (statement C08_callable_statement). Correspondence: Redefine's declared inputs as a set, then the call of the redefined function (outer resolution of the synthesised struct function and inner original Call) against the model, on the property's domain (stream redefstrict) and beyond (stream redefine: subtypes, interfaces, multi-input converters, generated converters).",
-        assumptions=["the 'callable' clause is monitored, not proved"]),
+        explanation="Theorems C08 / C08_unbounded (proofs/C08Redefine*.v): Redefine fails with the output-filter error exactly when an output is rejected; when it succeeds every input of the redefined function passes the input filter (bound: fewer than (2^63-1)/20 vertices) and none is keyed like a supplied value. Theorem C08_succeeds (proofs/C08Succeeds*.v): on the domain, for every tape, Redefine returns a function whenever no output is rejected and every target parameter passes the input filter (only other outcome: the error of a failing converter generator). Theorem C08_callable (proofs/C08Callable*.v, 10 files): when Redefine succeeds with inputs ins, the original Call with the Redefine options plus one value per declared input -- the body of the redefined function -- never fails for lack of an argument, for every tape, behaviour and choice of values (result or converter error only). C08_nonvacuous: a scenario recorded from the Go library meets every premise. Only the hand-over from the synthesised struct function to that inner Call is left to the correspondence (callredef operations). Correspondence: Redefine's declared inputs as a set, then the call of the redefined function (outer resolution of the synthesised struct function and inner original Call) against the model, on the property's domain (stream redefstrict) and beyond (stream redefine: subtypes, interfaces, multi-input converters, generated converters).",
+        assumptions=["the synthesised outer function of Redefine (reflect.StructOf wrapper) is exercised by the correspondence, its inner Call is what C08_callable covers"]),
 })
 
 PROPS.update({
